@@ -38,7 +38,8 @@ def plan(tier, seed):
 
 def _plan(tier, seed):
     n = 16000 if tier == "quick" else 1000000
-    return [{"kind": "random", "start": p * (n // NSHARDS), "count": n // NSHARDS} for p in range(NSHARDS)]
+    return [{"kind": "random", "start": p * (n // NSHARDS), "count": n // NSHARDS} for p in range(NSHARDS)] + \
+        [{"kind": "huge", "start": 5 * p, "count": 5} for p in range(2 if tier == "quick" else 8)]
 
 
 def gen_trend(rng, x, y, normalized):
@@ -50,10 +51,13 @@ def run_case(ctx, kind_, idx):
     from traffic_weaver import process
     rng = ctx.rng(kind_, idx)
     cid = ctx.case_id(kind_, idx)
-    x, y, meta = R.gen_series(rng, 2, 60, ties_share=0.2, long_share=R.LONG_SHARE)
+    x, y, meta = R.gen_series(rng, 2, 60, ties_share=0.2, long_share=R.LONG_SHARE, real_valued=kind_ == "huge",
+                              force_m=int(rng.integers(66000, 90001)) if kind_ == "huge" else None)
     if abs(x[0]) < 1e-12 and rng.integers(0, 5):
         x = x + float(rng.choice([5.0, -3.0, 100.0, float(rng.normal(0, 20))]))
     which = ["trend", "trend", "trend_additive", "shift_scale", "normalize"][int(rng.integers(0, 5))]
+    if kind_ == "huge":
+        which = ["trend", "normalize", "shift_scale", "trend", "trend_additive"][idx % 5]
     via_weaver = bool(rng.integers(0, 2))
     info = {"relation": which, "via_weaver": via_weaver, "m": len(x), "xcls": meta["xcls"], "ycls": meta["ycls"],
             "x0": float(x[0])}
